@@ -73,6 +73,28 @@ pub fn deadlock_key(d: &lockmon::Deadlock) -> String {
     format!("deadlock:{}", parts.join(" + "))
 }
 
+/// Waits until `done()`; gives up only after `idle` without any instrumented lock acquisition
+/// anywhere in the process (no progress) or after the hard cap.  Returns whether `done()` held.
+fn wait_with_progress(mut done: impl FnMut() -> bool, idle: Duration, cap: Duration) -> bool {
+    let t0 = Instant::now();
+    let mut last = lockmon::acquisitions();
+    let mut last_change = Instant::now();
+    loop {
+        if done() {
+            return true;
+        }
+        std::thread::sleep(Duration::from_millis(5));
+        let now = lockmon::acquisitions();
+        if now != last {
+            last = now;
+            last_change = Instant::now();
+        }
+        if last_change.elapsed() > idle || t0.elapsed() > cap {
+            return done();
+        }
+    }
+}
+
 /// one stress scenario; `topology`: number of ring nodes; returns when done or when a deadlock was seen
 pub fn stress(nodes: usize, limit: u32, with_invoke: bool, host_starters: usize, jitter: u64, do_shutdown: bool) -> StressResult {
     lockmon::reset();
@@ -149,23 +171,26 @@ pub fn stress(nodes: usize, limit: u32, with_invoke: bool, host_starters: usize,
             let mut ex = case.executor.clone();
             // shutdown from a helper thread: it may itself take part in a cycle
             let h = std::thread::Builder::new().name("host_shutdown".into()).spawn(move || ex.shutdown()).unwrap();
-            let t0 = Instant::now();
-            while !h.is_finished() && t0.elapsed() < Duration::from_secs(5) {
-                std::thread::sleep(Duration::from_millis(5));
-                if let Some(d) = lockmon::snapshot().deadlocks.first() {
-                    deadlock = Some(d.clone());
-                    break;
-                }
+            let mut seen = None;
+            wait_with_progress(
+                || {
+                    if let Some(d) = lockmon::snapshot().deadlocks.first() {
+                        seen = Some(d.clone());
+                        return true;
+                    }
+                    h.is_finished()
+                },
+                Duration::from_secs(20),
+                Duration::from_secs(240),
+            );
+            if seen.is_some() {
+                deadlock = seen;
             }
         }
     }
     if deadlock.is_none() {
         for h in hosts {
-            let t0 = Instant::now();
-            while !h.is_finished() && t0.elapsed() < Duration::from_secs(5) {
-                std::thread::sleep(Duration::from_millis(5));
-            }
-            if !h.is_finished() {
+            if !wait_with_progress(|| h.is_finished(), Duration::from_secs(20), Duration::from_secs(240)) {
                 stuck = true;
             }
         }
@@ -177,7 +202,8 @@ pub fn stress(nodes: usize, limit: u32, with_invoke: bool, host_starters: usize,
             r.send(crate::refsim::CANCEL);
         }
         for r in running.iter_mut() {
-            if !rec::wait_finished(r.tracer, Duration::from_secs(10)) {
+            let tr = r.tracer;
+            if !wait_with_progress(|| rec::is_finished(tr), Duration::from_secs(20), Duration::from_secs(240)) {
                 stuck = true;
             }
         }
